@@ -41,11 +41,12 @@ pub fn info() -> PropertyInfo {
     PropertyInfo {
         id: "C17",
         level: "exploration",
-        rule: "cases = stgen programs (strict dial, <= 18 statements per POU, nested FUNCTION/FB calls, FOR/WHILE/REPEAT) instantiated 1-3 times over 0-3 tasks + background, 1-3 input cycles repeated 1-6 times, x command scripts over {set/clear breakpoints at statement locations, pause(thread?), continue, step in/over/out(thread?), user writes}; lock-step search: commands only before the start and in reaction to a stop notification, every stop predicted from the reference statement trace; racy search: a second thread fires commands at generated real-time points, 50-200 repetitions per script; non-trivial = lock-step script with >= 1 step command issued at call depth >= 1, or racy script in which a pause stop and a breakpoint stop occurred in one repetition or a pause overtook a resume; distinct by SHA-256 of (source, script)",
+        rule: "cases = stgen programs (strict dial, <= 18 statements per POU, nested FUNCTION/FB calls, FOR/WHILE/REPEAT) instantiated 1-3 times over 0-3 tasks + background, 1-3 input cycles repeated 1-6 times, x command scripts over {set/clear breakpoints at statement locations, pause(thread?), pause_entry, continue, step in/over/out(thread?), user writes}; lock-step search: commands only before the start, between two cycles (the cycle thread waits at the boundary) and in answer to a stop notification, every stop predicted from the reference statement trace; racy search: a second thread fires commands at generated real-time points, 50-200 repetitions per script; non-trivial = lock-step script with >= 1 step command issued at call depth >= 1 or from a pause/entry stop, or racy script in which a pause stop and a breakpoint stop occurred in one repetition or a pause overtook a resume; distinct by SHA-256 of (source, script)",
         assumptions: &[
             "stepping is per debugger thread (task): 'the very next statement' after step-in and the depth clause of step-over/step-out refer to the statements of the stepped thread (DAP thread model; what the hook implements with target_thread)",
             "step-over stops at the first later statement of the stepped thread at call depth <= d, step-out at depth <= d-1 (d > 0) or <= 0 (d = 0), unless a breakpoint stop comes first (StepKind documentation in debug/control.rs); the property's own clause (never deeper than d) is reported separately",
             "a statement 'carries a breakpoint' when its source range overlaps the breakpoint's range (breakpoints.rs: overlap matching; a breakpoint on a nested statement also stops at the enclosing IF/CASE/loop statement); empty statements have no hook call",
+            "a pause request can be placed deterministically only while the debugger runs (pause while stopped is ignored by DebugControl): before the start and at cycle boundaries; the step clauses hold for every kind of origin stop (breakpoint, step, pause, entry)",
             "a user write queued while stopped in cycle k must have exactly the effect of the same whole-variable write applied between cycle k and k+1 of an undebugged run (documented contract of DebugControl::enqueue_*_write)",
             "no-wedge is judged by progress: a run counts as wedged when, while the controller waits for the next stop notification or the end of the run, the progress token (cycles completed, last statement location and call depth seen by the hook) does not move and the cycle thread is blocked (state S in /proc) at 150 consecutive samples 100 ms apart, or - last resort - the token does not move for 180 s (normal: < 5 ms); wedged twice in a row for one script = violation, once = inconclusive",
             "racy search: the OS scheduler chooses the interleaving; spin/yield/sleep delays perturb it but do not control it",
@@ -103,7 +104,7 @@ pub fn materialize(mut c: Case) -> Case {
     let g = generate(&c.prog_tape, &c.trace_tape, &gen_config());
     let mut r = Reader::new(&c.script_tape);
     let racy = c.mode == "racy";
-    let cfg = TaskCfg::generate(&mut r, !g.program.globals.is_empty(), if racy { 6 } else { 2 });
+    let cfg = TaskCfg::generate(&mut r, !g.program.globals.is_empty(), if racy { 6 } else { 3 });
     if racy {
         c.racy = Some(RacyScript::generate(&mut r, max_reps()));
     } else {
@@ -233,7 +234,11 @@ fn plan_lock(prog: &Program, trace: &Trace, cfg: &TaskCfg, script: &LockScript) 
         Prep::Internal(m) => return Planned::Internal(m),
     };
     let resolved = driver::resolve_lock(&first, script);
-    if script.reactions.iter().all(|r| r.write.is_none()) {
+    if script.reactions.iter().all(|r| r.write.is_none())
+        || script.between.iter().any(|c| !c.is_empty())
+        || script.reactions.iter().any(|r| r.on_pause.is_some())
+        || script.entry
+    {
         return Planned::Ready(Plan {
             world: first,
             resolved,
@@ -260,6 +265,7 @@ fn plan_lock(prog: &Program, trace: &Trace, cfg: &TaskCfg, script: &LockScript) 
         model.start(
             driver::bp_ranges(&world, &resolved.bps),
             pause,
+            false,
             script.early_step.is_some(),
         );
         let mut added = false;
@@ -555,6 +561,14 @@ fn check_racy_inner(case: &Case, probe: &mut Probe, max_reps: u32) -> Result<(),
         bucket(stats.pause_at_same_position)
     ));
     probe.label(format!(
+        "racy:depth_clause_decided={}",
+        bucket(stats.depth_clause_checks)
+    ));
+    probe.label(format!(
+        "racy:depth_clause_decided_from_pause_stop={}",
+        bucket(stats.depth_clause_checks_from_pause)
+    ));
+    probe.label(format!(
         "racy:racer_commands_during_execution={}%",
         if stats.racer_total == 0 {
             0
@@ -606,10 +620,12 @@ fn describe_script(c: &Case) -> String {
                 })
                 .collect();
             format!(
-                "lock: bps {:?} pause {:?} early {:?} reactions [{}]",
+                "lock: bps {:?} pause {:?} entry {} early {:?} between {:?} reactions [{}]",
                 l.bps,
                 l.pause,
+                l.entry,
                 l.early_step,
+                l.between,
                 cmds.join(" ")
             )
         }
